@@ -526,3 +526,318 @@ class C24(SelLawsEngine):
             out.append(Q("nest", self.rnd_list(rng, 2), self.rnd_list(rng, 2)))
             out.append(Q("append", self.rnd_list(rng, 2), [rng.choice((".g", "#k", "[z]", ":active", ".c", ":hover", "::after"))]))
         return out
+
+
+# =====================================================================================================================
+# C25: parse / print round trip (spec/SelRT.tla, MC_SelRT.tla, Trace_SelRT.tla)
+
+NTH = ("nth-child", "nth-last-child", "nth-of-type", "nth-last-of-type")
+HEXD = "0123456789abcdefABCDEF"
+
+
+def _ident_end(t, i, extra=""):
+    """end of a (possibly escaped) name starting at i; a hex escape takes its terminating whitespace along"""
+    n = len(t)
+    while i < n:
+        ch = t[i]
+        if ch == "\\" and i + 1 < n:
+            if t[i + 1] in HEXD:
+                j = i + 1
+                while j < n and j < i + 7 and t[j] in HEXD:
+                    j += 1
+                if j < n and t[j] in " \t\n\r\f":
+                    j += 1
+                i = j
+            else:
+                i += 2
+        elif ch.isalnum() or ch in "-_" or ch in extra or ord(ch) >= 128:
+            i += 1
+        else:
+            break
+    return i
+
+
+def _cps(s):
+    return [ord(c) for c in s]
+
+
+def lex_selector(text):
+    """printed selector list -> classified tokens [{"t": class, "v": raw code points}] (see SelRT.tla)"""
+    t = text
+    toks, i, n = [], 0, len(t)
+    ws = False
+
+    def tok(k, s=""):
+        toks.append({"t": k, "v": _cps(s)})
+
+    while i < n:
+        ch = t[i]
+        if ch in " \t\n\r\f":
+            ws = True
+            i += 1
+            continue
+        if ch in ">+~":
+            tok("comb", ch)
+            ws = False
+            i += 1
+            continue
+        if ch == ",":
+            tok("comma")
+            ws = False
+            i += 1
+            continue
+        if ws and toks and toks[-1]["t"] not in ("comb", "comma", "open"):
+            tok("sp")
+        ws = False
+        if ch == ".":
+            j = _ident_end(t, i + 1)
+            tok("class", t[i + 1:j])
+            i = j
+        elif ch == "#":
+            j = _ident_end(t, i + 1)
+            tok("id", t[i + 1:j])
+            i = j
+        elif ch == ":":
+            j = i + 1
+            kind = "pseudo"
+            if j < n and t[j] == ":":
+                j += 1
+                kind = "pe"
+            k = _ident_end(t, j)
+            name = t[j:k]
+            tok(kind, name)
+            i = k
+            if i < n and t[i] == "(":
+                e = _close(t, i, "(", ")")
+                inner = t[i + 1:e - 1]
+                tok("open")
+                low = name.lower()
+                if low in SELECTOR_PSEUDOS:
+                    toks.extend(lex_selector(inner))
+                elif low in NTH:
+                    words = inner.split()
+                    if "of" in words:
+                        p = words.index("of")
+                        head, sel = words[:p + 1], inner.split(" of ", 1)[1] if " of " in inner else ""
+                    else:
+                        head, sel = words, None
+                    for w in head:
+                        for part in re.split(r"(\+)", w):
+                            if part:
+                                tok("arg", part)
+                    if sel is not None:
+                        toks.extend(lex_selector(sel))
+                else:
+                    for w in inner.split():
+                        tok("arg", w)
+                tok("close")
+                i = e
+        elif ch == "[":
+            e = _close(t, i, "[", "]")
+            inner = t[i + 1:e - 1].lstrip()          # (an escaped space may end the value: no rstrip)
+            j = 1 if inner[:1] == "*" else _ident_end(inner, 0)
+            if inner[j:j + 1] == "|" and inner[j + 1:j + 2] != "=":          # namespace prefix (`ns|x`, `*|x`, `|x`), not the `|=` operator
+                j = _ident_end(inner, j + 1)
+            tok("aname", inner[:j])
+            rest = inner[j:].lstrip()
+            if rest.strip():
+                m = re.match(r"([*|$~^]?=)\s*", rest)
+                if not m:
+                    tok("other", rest)
+                else:
+                    tok("aop", m.group(1))
+                    rest = rest[m.end():]
+                    if rest[:1] in ("\"", "'"):
+                        q = _close_quote(rest)
+                        val, rest = rest[:q], rest[q:].strip()
+                    else:
+                        q = _ident_end(rest, 0)
+                        val, rest = rest[:q], rest[q:].strip()
+                    tok("aval", val)
+                    if rest:
+                        tok("amod", rest)
+            tok("aend")
+            i = e
+        elif ch == "(" or ch == ")":
+            tok("other", ch)
+            i += 1
+        else:
+            j = _ident_end(t, i, "|*")
+            if j == i:
+                tok("other", ch)
+                j = i + 1
+            else:
+                tok("elem", t[i:j])
+            i = j
+    return toks
+
+
+def _close_quote(s):
+    q = s[0]
+    j = 1
+    while j < len(s) and s[j] != q:
+        j += 2 if s[j] == "\\" else 1
+    return min(j + 1, len(s))
+
+
+def scss_quote(s):
+    return '"' + s.replace("\\", "\\\\").replace('"', '\\"') + '"'
+
+
+RT_PRE = '@use "sass:selector";\n@use "sass:string";\n'
+
+
+def strip_charset(out):
+    out = out or ""
+    if out.startswith("﻿"):
+        out = out[1:]
+    if out.startswith("@charset"):
+        out = out.split("\n", 1)[1] if "\n" in out else ""
+    return out
+
+
+class C25(VectorEngine):
+    prop = "C25"
+    level = "exploration"
+    trace = ("Trace_SelRT", "Trace_SelRT.cfg")
+    spec_op = "SelRT!RoundTripOK"
+    mc_runs = {"quick": [("MC_SelRT", "MC_SelRT_names_q.cfg", {"workers": 4}), ("MC_SelRT", "MC_SelRT_ctx_q.cfg", {"workers": 4}),
+                         ("MC_SelRT", "MC_SelRT_struct_q.cfg", {"workers": 4})],
+               "thorough": [("MC_SelRT", "MC_SelRT_names_t.cfg", {"workers": 4}), ("MC_SelRT", "MC_SelRT_ctx_q.cfg", {"workers": 4}),
+                            ("MC_SelRT", "MC_SelRT_struct_q.cfg", {"workers": 4})]}
+    random_n = {"quick": 1000, "thorough": 20000}
+    max_rejects = 8
+    rule = ("Selector sources rendered by MC_SelRT.tla from token sequences: every class/id/type name of 1-2 characters from 12 code-point "
+            "classes (letter, upper case, digit, hyphen, underscore, non-ASCII letter, astral letter, non-ASCII symbol, emoji, ASCII punctuation, "
+            "space, control) in every allowed spelling (raw, \\c, \\hex+space, \\6 hex digits), the same names inside compounds / pseudo-class "
+            "arguments / attribute values / lists; namespaces, attribute operators and modifiers, nth arguments (incl. `of S`), selector "
+            "pseudo-class arguments, each placed in 7 contexts; all chains of <=3 compounds / <=4 simple selectors over 6 core simple selectors "
+            "x 4 combinators and comma, with and without optional whitespace. For each source rsass evaluates print(parse(S)), "
+            "print(parse(print(parse(S)))) and the selector emitted for `S {x: y}`; Trace_SelRT.tla compares the denotations (SelRT!RoundTripOK). "
+            "An evaluation = one source accepted by selector.parse; distinct = distinct source text. Flow B: seeded random token sequences "
+            "(longer names, random spelling) rendered by MC_SelRT (mode input).")
+    assumptions = ["denotations are compared, not texts: escape spelling and the quote style of attribute values are not constrained",
+                   "compounds are generated in the storage order of the pinned tree (the open finding compound_reordered belongs to C19/C22)",
+                   "the source reaches selector.parse through string.unquote(\"...\") with only `\\\\` and `\\\"` escaped; sources that "
+                   "selector.parse rejects are outside the property and skipped (counted in the evidence)",
+                   "a universal selector in front of other simple selectors (`*.c`) is not generated (the pinned tree prints `.c`)"]
+
+    # ---- asking rsass -----------------------------------------------------------------------------------------
+    def cases_for(self, src, cid):
+        lit = scss_quote(src)
+        return [dict(api="compile_scss", style="expanded", id=cid + "/p1", src=RT_PRE + "$p: selector.parse(string.unquote(%s));\nr {\n  v: #{$p};\n}\n" % lit),
+                dict(api="compile_scss", style="expanded", id=cid + "/p2", src=RT_PRE + "$p: selector.parse(string.unquote(%s));\n$q: selector.parse($p);\nr {\n  v: #{$q};\n}\n" % lit),
+                dict(api="compile_scss", style="expanded", id=cid + "/em", src=src + " {\n  x: y;\n}\n")]
+
+    @staticmethod
+    def read_value(res):
+        st = res.get("status")
+        if st != "ok":
+            return {"st": "err" if st == "err" else str(st), "toks": []}
+        m = re.match(r"\Ar \{\n  v: (.*);\n\}\n*\Z", strip_charset(res.get("out")), re.S)
+        if not m:
+            return {"st": "noout", "toks": []}
+        return {"st": "ok", "toks": lex_selector(m.group(1))}
+
+    @staticmethod
+    def read_emitted(res):
+        st = res.get("status")
+        if st != "ok":
+            return {"st": "err" if st == "err" else str(st), "toks": []}
+        m = re.match(r"\A(.*) \{\n  x: y;\n\}\n*\Z", strip_charset(res.get("out")), re.S)
+        if not m:
+            return {"st": "noout", "toks": []}
+        return {"st": "ok", "toks": lex_selector(m.group(1))}
+
+    def observe_all(self, ctx, vecs, tag):
+        cases = []
+        for i, v in enumerate(vecs):
+            cases += self.cases_for("".join(chr(c) for c in v["src"]), "%s#%d" % (tag, i))
+        res = ctx.execute(cases)
+        events = []
+        for i, v in enumerate(vecs):
+            cid = "%s#%d" % (tag, i)
+            events.append(dict(id=v["id"], src=v["src"], den=v["den"], p1=self.read_value(res[cid + "/p1"]),
+                               p2=self.read_value(res[cid + "/p2"]), em=self.read_emitted(res[cid + "/em"])))
+        return events
+
+    def run(self, ctx):
+        vecs = []
+        for (module, cfg, kw) in self.mc_runs[ctx.tier]:
+            r = ctx.mc(module, cfg, **kw)
+            got = list(ctx.vectors(r))
+            if not got:
+                raise tlc.ToolError("%s/%s produced no vectors (vacuous model run)" % (module, cfg))
+            vecs += got
+        nspec = len(vecs)
+        vecs += self.random_vectors(ctx, self.random_n.get(ctx.tier, 0))
+        vecs.sort(key=lambda v: (v["id"], v["src"]))
+        events = self.observe_all(ctx, vecs, "v")
+        devs = ctx.open_devs()
+        stats = {}
+        for i, e in enumerate(events):
+            e["case"] = i
+            e["devs"] = devs
+            k = "p1:%s p2:%s em:%s" % (e["p1"]["st"], e["p2"]["st"], e["em"]["st"])
+            stats[k] = stats.get(k, 0) + 1
+            if e["p1"]["st"] == "ok":
+                ctx.note_case(e["src"], sample=dict(source="".join(chr(c) for c in e["src"]),
+                                                    observed={f: e[f]["st"] for f in ("p1", "p2", "em")}) if i % max(1, len(events) // 5) == 0 else None)
+        ctx.extra["outcomes"] = stats
+        ctx.extra["sources_from_spec"] = nspec
+        ctx.extra["sources_random"] = len(vecs) - nspec
+
+        def on_reject(e):
+            i = e["case"]
+            src = "".join(chr(c) for c in e["src"])
+            ctx.violation("v#%d" % i, dict(input=dict(id=e["id"], src=e["src"], den=e["den"]), rendered=self.cases_for(src, "replay"),
+                                            actual={f: e[f] for f in ("p1", "p2", "em")}, source=src,
+                                            expected="(rejected by %s: SelRT!RoundTripOK)" % self.trace[0], flow="B"))
+        # validate in chunks: the events are independent of each other
+        chunk = 4000
+        for c in range(0, len(events), chunk):
+            ctx.validate(self.trace[0], self.trace[1], events[c:c + chunk], on_reject=on_reject, max_rejects=self.max_rejects, tag="t%d" % c)
+
+    def replay(self, ctx, rep):
+        v = rep["input"]
+        ev = self.observe_all(ctx, [v], "replay")[0]
+        ev["case"] = 0
+        ev["devs"] = ctx.open_devs()
+        print("replay observed:", jdump({f: ev[f] for f in ("p1", "p2", "em")}))
+        bad = []
+        ctx.validate(self.trace[0], self.trace[1], [ev], on_reject=lambda e: bad.append(e))
+        return not bad
+
+    # ---- Flow B: random token sequences, rendered by the specification (MC_SelRT mode "input") ------------------
+    CH = [97, 98, 122, 65, 90, 48, 57, 45, 95, 233, 255, 960, 19990, 119808, 169, 215, 8594, 128512, 46, 58, 32, 33, 126, 64, 1, 127, 160]
+
+    def random_vectors(self, ctx, n):
+        if not n:
+            return []
+        import json
+        import os
+        rng = ctx.rng
+        kinds = ("raw", "raw", "bs", "hex", "hex6")
+        T = lambda t, v: {"t": t, "v": v}
+        rows = []
+        for _ in range(n):
+            name = [rng.choice(self.CH) for _ in range(rng.randint(1, 4))]
+            sp = [rng.choice(kinds) for _ in name]
+            nt = T(rng.choice(("class", "id", "elem", "class")), name)
+            toks, at = [nt], 1
+            r = rng.random()
+            if r < 0.25 and nt["t"] != "elem":
+                toks, at = [T("elem", [97])] + toks, 2
+            if rng.random() < 0.3:
+                toks = toks + [T("pseudo", [104, 111, 118, 101, 114])]
+            if rng.random() < 0.3:
+                toks = toks + [T("comb", [rng.choice((62, 43, 126))]), T("elem", [98]), T("class", [99])]
+            if rng.random() < 0.2:
+                toks, at = [T("class", [100]), T("comma", [])] + toks, at + 2
+            rows.append(dict(den=toks, at=at, sp=sp))
+        path = os.path.join(ctx.work, "rt-inputs.ndjson")
+        with open(path, "w") as f:
+            for r in rows:
+                f.write(json.dumps(r) + "\n")
+        r = ctx.mc("MC_SelRT", "MC_SelRT_input.cfg", workers=4, env={"INPUTS": path})
+        return list(ctx.vectors(r))
